@@ -52,13 +52,26 @@ def gen_graph(rng, want):
         for e in edges[i]:
             if e[0] == "to" and mods[e[2]] != mods[i] and e[1] != "call":
                 e[1] = "call"
-    return {"n": n, "mods": mods, "edges": edges}
+    # some functions that are only reached by plain calls get the name of a Python builtin; dds.eval may be imported and
+    # called as a bare name (from dds import eval)
+    names = [f"f{i}" for i in range(n)]
+    builtin_names = ["format", "filter", "hash", "input", "compile", "sorted", "print", "len"]
+    rng.shuffle(builtin_names)
+    for j in range(1, n):
+        incoming = [e for i in range(n) for e in edges[i] if e[0] == "to" and e[2] == j]
+        if incoming and all(e[1] == "call" for e in incoming) and rng.random() < 0.35:
+            names[j] = builtin_names.pop()
+    bare_eval = rng.random() < 0.5
+    return {"n": n, "mods": mods, "edges": edges, "names": names, "bare_eval": bare_eval}
 
 
 def render(gr, root_dir, pkg="vpg"):
     """Writes the package; returns the graph as the analysis sees it: list of (name, [edge...]) with pseudo edges."""
     n, mods, edges = gr["n"], gr["mods"], gr["edges"]
-    src = {"m0": ["import dds", "import vlogmod", "from . import m1", ""], "m1": ["import dds", "import vlogmod", "from . import m0", ""]}
+    names = gr.get("names") or [f"f{i}" for i in range(n)]
+    ev = "eval" if gr.get("bare_eval") else "dds.eval"
+    imp = ["from dds import eval"] if gr.get("bare_eval") else []
+    src = {"m0": ["import dds", "import vlogmod", "from . import m1"] + imp + [""], "m1": ["import dds", "import vlogmod", "from . import m0"] + imp + [""]}
     model = []
     npath = 0
     for i in range(n):
@@ -67,13 +80,13 @@ def render(gr, root_dir, pkg="vpg"):
         classes = []
         for k, e in enumerate(edges[i]):
             if e[0] == "eval":
-                tgt = f"f{e[1]}" if mods[e[1]] == m else f"{mods[e[1]]}.f{e[1]}"
-                body.append(f"    x{k} = dds.eval({tgt})")
+                tgt = names[e[1]] if mods[e[1]] == m else f"{mods[e[1]]}.{names[e[1]]}"
+                body.append(f"    x{k} = {ev}({tgt})")
                 medges.append("EEval")
                 continue
             _, kind, j = e
             same = mods[j] == m
-            name = f"f{j}"
+            name = names[j]
             if kind == "call":
                 if same:
                     body.append(f"    x{k} = {name}()")
@@ -103,8 +116,8 @@ def render(gr, root_dir, pkg="vpg"):
                 model.append((cname, [f"ETo KCall {C.hexs(name)}"]))
         for cname, name in classes:
             src[m] += [f"class {cname}:", "    def run(self):", f"        return {name}()", "", ""]
-        src[m] += [f"def f{i}():"] + body + [f"    vlogmod.log('f{i}')", f"    return 'f{i}'", "", ""]
-        model.append((f"f{i}", medges))
+        src[m] += [f"def {names[i]}():"] + body + [f"    vlogmod.log('f{i}')", f"    return 'f{i}'", "", ""]
+        model.append((names[i], medges))
     pdir = os.path.join(root_dir, pkg)
     os.makedirs(pdir, exist_ok=True)
     open(os.path.join(pdir, "__init__.py"), "w").write("")
